@@ -428,13 +428,16 @@ def run(ctx):
         run_history(ctx, p, hist, modes, f"directed:{name}")
         if i % 4 == 0:
             run_history(ctx, p, hist[:12], modes[:12], f"directed:{name}", nocache_graph=True)
-        if i % 2 == 0:
+        if True:
             # dictionaries that differ only in options reached THROUGH the values of the options the program reads
             # (references to names that are not identifiers, to the last list element)
             via = [{"A": "{K-1}", "K-1": 1, "B": "p{K 2}q", "K 2": "s", "C": "{L.-1}", "L": [0, 5], "D": "x", "S": {"X": "{K-1}", "Y": 2}, "E": "y"},
                    {"A": "{K-1}", "K-1": 2, "B": "p{K 2}q", "K 2": "t", "C": "{L.-1}", "L": [0, 6], "D": "x", "S": {"X": "{K-1}", "Y": 2}, "E": "y"}]
+            # ... and a dictionary that differs from the first ONLY in a member of a section whose other member is
+            # read by name (S.Y next to S.X): whoever reads the whole section sees the difference
+            via.append({**copy.deepcopy(via[0]), "S": {"X": "{K-1}", "Y": 9}})
             ctx.count("transitive_reference_histories")
-            run_history(ctx, p, [via[(j // 2) % 2] for j in range(12)], modes[:12], f"directed:{name}:via")
+            run_history(ctx, p, [via[(j // 2) % 3] for j in range(12)], modes[:12], f"directed:{name}:via")
     n = ctx.n(1200, 16000)
     for i in range(n):
         r = case_rng(ctx, i)
